@@ -690,7 +690,12 @@ impl StatsdClientBuilder {
             sink: Box::new(sink),
 
             // optional with defaults
+            #[cfg(not(kani))]
             errors: Box::new(nop_error_handler),
+            // Verification hook: Kani 0.68 cannot compile the fn-item-to-trait-object
+            // coercion above; an equivalent closure is used under `cargo kani` only.
+            #[cfg(kani)]
+            errors: Box::new(|e| nop_error_handler(e)),
             tags: Vec::new(),
             container_id: None,
         }
